@@ -135,8 +135,10 @@ theorem processBunch_sameN (c : Conn) (x : Channel) (b : Bunch) : SameN c (c.pro
   · exact emit_sameN _ _
   · split
     · split
-      · exact setChan_sameN _ _ _
       · exact emit_sameN _ _
+      · split
+        · exact setChan_sameN _ _ _
+        · exact emit_sameN _ _
     · exact receivedNextBunch_sameN _ _
 
 theorem receivedRawBunch_sameN (c : Conn) (bits : Bits) : SameN c (c.receivedRawBunch bits).1 := by
